@@ -36,6 +36,7 @@ var (
 	vB   = varDecl{"b", "Boolean", ""}
 	vId  = varDecl{"id", "ID", ""}
 	vE   = varDecl{"e", "Color", ""}
+	vEs  = varDecl{"es", "[Color!]", ""}
 	vL   = varDecl{"l", "[Int!]", ""}
 	vIn  = varDecl{"in", "Inp", ""}
 	vFs  = varDecl{"fs", "[Float!]!", ""}
@@ -55,6 +56,7 @@ var querySnippets = []snippet{
 	{"%a: echoBool(x: $b)", []varDecl{vB}, "", "var-bool"},
 	{"%a: echoID(x: $id)", []varDecl{vId}, "", "var-id"},
 	{"%a: echoEnum(x: $e)", []varDecl{vE}, "", "var-enum"},
+	{"%a: echoEnums(x: $es)", []varDecl{vEs}, "", "var-enum-list"},
 	{"%a: echoList(x: $l)", []varDecl{vL}, "", "var-list"},
 	{"%a: echoInput(x: $in)", []varDecl{vIn}, "", "var-input"},
 	{"%a: echoInput(x: {i: $i, s: $s, nested: {f: $f, l: [1, $i]}})", []varDecl{vI, vS, vF}, "", "var-input"},
@@ -274,6 +276,11 @@ func genValue(r *rng.R, typ string) *J {
 			return rng.Pick(r, []*J{jstr("PURPLE"), jnum("1"), jstr("red"), jbool(false)})
 		}
 		return jstr(rng.Pick(r, []string{"RED", "GREEN", "BLUE"}))
+	case "[Color!]":
+		if bad {
+			return rng.Pick(r, []*J{jarr(jstr("RED"), jnull()), jstr("red"), jarr(jnum("1")), jarr(jstr("PURPLE"))})
+		}
+		return rng.Pick(r, []*J{jarr(), jarr(jstr("RED")), jarr(jstr("GREEN"), jstr("BLUE"), jstr("GREEN")), jstr("BLUE")})
 	case "[Int!]":
 		if bad {
 			return rng.Pick(r, []*J{jarr(jnum("1"), jnull()), jstr("x"), jarr(jnum("1.5")), jarr(jarr(jnum("1")))})
@@ -378,6 +385,7 @@ func baseOps() []*opReq {
 		{Query: "query A { a: echoInt(x: 1) } query B { b: echoInt(x: 2) } mutation C { bump(by: 4) }", OpName: "C", Classes: []string{"opname-select", "mutation"}},
 		{Query: "query A { a: echoInt(x: 1) } query B { b: echoInt(x: 2) }", Classes: []string{"opname-missing"}},
 		{Query: "{ gated a: echoInt(x: 1) }", Classes: []string{"gated"}},
+		{Query: "query ($es: [Color!]) { echoEnums(x: $es) l: echoEnums(x: [BLUE]) echoInput(x: {es: $es}) }", Vars: jobj(kv{"es", jarr(jstr("RED"), jstr("BLUE"))}), Classes: []string{"var-enum-list"}},
 		{Query: "{ fail obj { a fail child { failNN } } objs(n: 3) { a child { fail } } }", Classes: []string{"exec-error"}},
 		{Query: "query ($i: Int!) { echoInt(x: $i) }", Vars: jobj(kv{"i", jstr("not a number")}), Classes: []string{"var-int"}},
 		{Query: "{ unknownField }", Classes: []string{"invalid-doc"}},
